@@ -108,9 +108,17 @@ def eam_api_objects(model, wrap=None):
   order = spec.eam_element_order(model)
   emb = {a: n for a, n in model["embed"]}
 
+  import json
+  shared = {}
+
   def mk(node, tag):
+    key = json.dumps(node, sort_keys=True)
+    if model.get("share_callables") and key in shared and tag[0] == shared[key][1]:
+      return shared[key][0]      # one callable object serving several species / pairs of the same kind
     f = emit.api_callable(node, tables)
-    return wrap(f, tag) if wrap else f
+    f = wrap(f, tag) if wrap else f
+    shared[key] = (f, tag[0])
+    return f
 
   eams = []
   for s in order:
